@@ -420,6 +420,8 @@ def run(ctx):
     rule_env(ctx, tu, py, I)
     rule_py_siblings(ctx, py)
     rule_graph_neighbours(ctx, py)
+    from .. import lints
+    lints.run(ctx, "C01", ctx.py, ["kinetics", "rdsystem", "librdengine"])
     ctx.assume("agreement to rounding is not decided; that the mean is harmonic is decided only relatively (all four "
                "implementations are the same symmetric rational function of the right dimension)")
     ctx.assume("RDSystem size invariant (state / chemostat map have space.size()*nspecies() entries) for the FFI extents")
